@@ -1,11 +1,25 @@
 #!/bin/bash
-# usage: try_seed.sh <seed-name> <prop> [<prop>...] — apply /verif/seeded/<seed>/patch.diff to /repo, run the quick checks, undo.
+# usage: try_seed.sh <seed-name> <prop> [<prop>...] — apply /verif/seeded/<seed>/patch.diff to /repo, run the quick checks,
+# undo, record the outcome in /verif/seeded/results.json (consumed by tools/mkmeta.py).
 S=$1; shift
 cd /repo && git apply /verif/seeded/$S/patch.diff || { echo "patch does not apply"; exit 2; }
 for p in "$@"; do
-  out=$(cd /verif && ./check $p --tier quick 2>&1)
+  t0=$(date +%s)
+  out=$(cd /verif && timeout 1500 ./check $p --tier quick 2>&1)
   rc=$?
-  echo "== seed $S check $p rc=$rc"
-  echo "$out" | grep -E "VIOLATION|KNOWN-FINDING|FAILURE|BROKEN|MACHINERY" | cut -c1-400 | head -8
+  t1=$(date +%s)
+  echo "== seed $S check $p rc=$rc ($((t1-t0)) s)"
+  echo "$out" | grep -E "VIOLATION|KNOWN-FINDING|FAILURE|BROKEN|MACHINERY" | cut -c1-400 | head -6
+  python3 - "$S" "$p" "$rc" "$((t1-t0))" <<PY
+import json, os, sys
+s, p, rc, secs = sys.argv[1], sys.argv[2], int(sys.argv[3]), int(sys.argv[4])
+out = """$(echo "$out" | grep -E "VIOLATION|FAILURE|BROKEN" | cut -c1-300 | head -4 | sed 's/\\/\\\\/g; s/"""/'"'"''"'"''"'"'/g')"""
+path = "/verif/seeded/results.json"
+d = json.load(open(path)) if os.path.exists(path) else {}
+d.setdefault(s, {})[p] = {"exit_code": rc, "caught": rc == 1, "seconds": secs, "first_lines": [l for l in out.splitlines() if l.strip()][:4]}
+json.dump(d, open(path, "w"), indent=1)
+PY
 done
-cd /repo && git checkout -- . 
+cd /repo && git checkout -- .
+# the harness binary was built against the changed tree: rebuild it against the restored one
+(cd /verif/harness && CARGO_NET_OFFLINE=true cargo build --release --offline >/dev/null 2>&1)
